@@ -163,6 +163,17 @@ Theorem C14_overlap_atomic : forall xs ys : list txn, Forall good xs -> Forall g
 Proof. exact overlap_atomic. Qed.
 Print Assumptions C14_overlap_atomic.
 
+(* ... and when neither of the two overlapping updates is hit by a fault, whatever the interleaving, every state
+   file one of them targets ends with a complete NEW version (that of the update that renamed last). *)
+Theorem C14_overlap_complete : forall xs ys : list txn, Forall good xs -> Forall good ys ->
+  (forall x y, In x xs -> In y ys -> tmp x <> tmp y) ->
+  (forall x y, In x (xs ++ ys) -> In y (xs ++ ys) -> tmp x <> dst y) ->
+  forall x, In x (xs ++ ys) -> forall (sch : list bool) (s : fs),
+    exists c, read (dst x) (run (interleave sch (exec xs true NoFault) (exec ys true NoFault)) s) = Some c /\
+              exists z b', In z (xs ++ ys) /\ dst z = dst x /\ c = concat_str (chunks z b').
+Proof. exact overlap_complete. Qed.
+Print Assumptions C14_overlap_complete.
+
 (* the protocol of two overlapping real updates (compared with the recorded traces: the temporary files of the two
    calls are named after the call that opened them first) meets these hypotheses as soon as the two temporary
    names differ and are not the state file *)
